@@ -707,6 +707,17 @@ int main(int argc, char *argv[]) {
     }
   }
 
+  // Read all of the databases before we touch the output file, so that
+  // whatever goes wrong while reading them cannot leave a partial file behind.
+  // (An output file from an earlier run is removed: it does not belong to
+  // these databases.)
+  interrogate_number_of_global_types();
+  if (interrogate_error_flag()) {
+    nout << "Error reading interrogate data.\n";
+    output_code_filename.unlink();
+    exit(1);
+  }
+
   int status = 0;
 
   // Now output the table.
